@@ -420,7 +420,7 @@ type bgeu struct {
 func (op *bgeu) Run(ctx *Context, labels map[string]int32, pc int32, memory []int8, sequenceID int32) (Execution, error) {
 	rs1 := registerRead(ctx, op.forward, op.rs1, sequenceID)
 	rs2 := registerRead(ctx, op.forward, op.rs2, sequenceID)
-	if rs1 >= rs2 {
+	if uint32(rs1) >= uint32(rs2) {
 		addr, ok := labels[op.label]
 		if !ok {
 			return Execution{}, fmt.Errorf("label %s does not exist", op.label)
@@ -561,7 +561,7 @@ type bltu struct {
 func (op *bltu) Run(ctx *Context, labels map[string]int32, pc int32, memory []int8, sequenceID int32) (Execution, error) {
 	rs1 := registerRead(ctx, op.forward, op.rs1, sequenceID)
 	rs2 := registerRead(ctx, op.forward, op.rs2, sequenceID)
-	if rs1 < rs2 {
+	if uint32(rs1) < uint32(rs2) {
 		addr, ok := labels[op.label]
 		if !ok {
 			return Execution{}, fmt.Errorf("label %s does not exist", op.label)
@@ -1571,7 +1571,7 @@ func (op *sltu) Run(ctx *Context, _ map[string]int32, pc int32, memory []int8, s
 	var value int32
 	rs1 := registerRead(ctx, op.forward, op.rs1, sequenceID)
 	rs2 := registerRead(ctx, op.forward, op.rs2, sequenceID)
-	if rs1 < rs2 {
+	if uint32(rs1) < uint32(rs2) {
 		register, value = IsRegisterChange(op.rd, 1)
 	} else {
 		register, value = IsRegisterChange(op.rd, 0)
